@@ -53,7 +53,7 @@ pub fn history<S: USet>(e: &mut Eng<S>, name: &str, steps: usize, regime: u64, w
         if profile_is_term(w) && e.rng.chance(1, 3) {
             v = e.gen_placeholder_value(i, regime);
         }
-        let r = e.rng.below(1000);
+        let r = e.rng.below(w.total());
         let mut acc = 0;
         macro_rules! pick {
             ($wt:expr) => {{
@@ -250,6 +250,9 @@ pub struct Weights {
     pub deep_audit: bool,
 }
 impl Weights {
+    pub fn total(&self) -> u64 {
+        self.ins + self.rem + self.con + self.obs + self.audit + self.clone + self.drop + self.drain + self.collect + self.extend + self.eq + self.binop + self.wco + self.readers + self.serde
+    }
     pub fn core() -> Self {
         Weights { ins: 560, rem: 250, con: 150, obs: 20, audit: 5, clone: 0, drop: 0, drain: 3, collect: 0, extend: 5, eq: 0, binop: 0, wco: 0, readers: 0, serde: 0, multi: 0, start_hint: 0, start_collect: 10, maxcap: 600, deep_audit: false }
     }
